@@ -3,6 +3,21 @@
 import json
 from pathlib import Path
 V = Path(__file__).resolve().parent.parent
+
+
+def rules_suffix(pid):
+    """the names of the rules the check evaluates today (from the latest evidence file), so the claim text cannot go stale"""
+    p = V / "evidence" / (pid + ".json")
+    if not p.exists():
+        return ""
+    try:
+        ev = json.loads(p.read_text())
+    except ValueError:
+        return ""
+    names = [r for r in ev["coverage"].get("rules", {}) if r != "CONTROL"]
+    return " | Rules evaluated on every run (one line each in DESIGN.md Appendix E): " + ", ".join(names) + "."
+
+
 props = [json.loads(l) for l in open(V / "properties.jsonl")]
 claims = json.load(open(V / "tools" / "claims.json"))
 checks = []
@@ -18,7 +33,7 @@ for p in props:
             "evidence_file": "/verif/evidence/%s.json" % pid,
             "replay_cmd_template": "./check %s --replay {path}" % pid,
             "engine": c["engine"],
-            "level_claimed": {"category": "other", "text": c["text"], "design_ref": c.get("design_ref", "DESIGN.md section 4")},
+            "level_claimed": {"category": "other", "text": c["text"] + rules_suffix(pid), "design_ref": c.get("design_ref", "DESIGN.md section 4") + "; Appendix E"},
             "level_note": c["note"],
             "technique": c["technique"],
         })
